@@ -184,6 +184,94 @@ theorem execution_books (s : EnvState α) (a : Action α) :
   unfold stepPre processLatent
   exact foldl_notifyEvent_ex s.pendLat _
 
+/-! ### the whole episode: what is executed at each accepted step -/
+
+/-- an accepted `step` leaves the queue shifted by exactly one decision, whatever it returns -/
+theorem envStep_queue (pw : α → α → α) (lg : α → α) (cfg : EnvCfg α) (s : EnvState α) (a : Action α)
+    (hd : s.done = false) : (envStep pw lg cfg s a).1.queue = (qstep s.queue a).1 := by
+  unfold envStep
+  simp only [hd, Bool.false_eq_true, if_false]
+  obtain ⟨q1, _⟩ := stepPre_queue s a
+  obtain ⟨_, _, _, _, _, x6, _⟩ := stepExec_spec pw cfg (stepPre s a).1 (stepPre s a).2
+  cases hres : stepExec pw cfg (stepPre s a).1 (stepPre s a).2 with
+  | mk s2 res =>
+    rw [hres] at x6
+    simp only at x6
+    cases res with
+    | error e => simp only; rw [x6, q1]
+    | ok tr =>
+        simp only
+        unfold stepFinish
+        simp only
+        obtain ⟨_, _, _, _, _, _, _, i8⟩ := foldl_notifyEvent s2.pendNon s2
+        have hq3 : (processNonlatent cfg s2).queue = s2.queue := by
+          unfold processNonlatent
+          simp only
+          split <;> (simp only; exact i8)
+        cases hrw : rewardOf lg cfg (processNonlatent cfg s2).broker with
+        | mk b4 res2 =>
+          cases res2 with
+          | error e => simp only; rw [hq3, x6, q1]
+          | ok r =>
+              simp only
+              have n5 := (notify_frame ({ processNonlatent cfg s2 with broker := b4 } : EnvState α) .step
+                (processNonlatent cfg s2).now none).2.2.2.2.2.1
+              split_ifs
+              · have n6 := (notify_frame (notify ({ processNonlatent cfg s2 with broker := b4 } : EnvState α) .step
+                  (processNonlatent cfg s2).now none) .done
+                  (notify ({ processNonlatent cfg s2 with broker := b4 } : EnvState α) .step
+                    (processNonlatent cfg s2).now none).now none).2.2.2.2.2.1
+                rw [n6, n5]; simp only; rw [hq3, x6, q1]
+              · rw [n5]; simp only; rw [hq3, x6, q1]
+
+/-- the actions that become due, one per accepted `step`, until the episode is over -/
+def runDue (pw : α → α → α) (lg : α → α) (cfg : EnvCfg α) : EnvState α → List (Action α) → List (Action α)
+  | _, [] => []
+  | s, a :: as => if s.done then [] else (stepPre s a).2 :: runDue pw lg cfg (envStep pw lg cfg s a).1 as
+
+/-- **FIFO over the whole episode**: whatever the steps return (results or errors), the actions executed at the
+    accepted steps are, in order, the first elements of "the queue as `reset` left it (oldest first), then the
+    submitted decisions" — nothing dropped, duplicated or reordered -/
+theorem episode_fifo (pw : α → α → α) (lg : α → α) (cfg : EnvCfg α) (acts : List (Action α)) (s : EnvState α) :
+    runDue pw lg cfg s acts = (s.queue.reverse ++ acts).take (runDue pw lg cfg s acts).length := by
+  induction acts generalizing s with
+  | nil => simp [runDue]
+  | cons a as ih =>
+      by_cases hd : s.done = true
+      · simp [runDue, hd]
+      · have hd' : s.done = false := by simpa using hd
+        have hq := envStep_queue pw lg cfg s a hd'
+        obtain ⟨_, q2⟩ := stepPre_queue s a
+        obtain ⟨h1, h2⟩ := qstep_rev s.queue a
+        have hne : s.queue.reverse ++ [a] = (qstep s.queue a).2 :: (s.queue.reverse ++ [a]).tail := by
+          cases hq' : s.queue.reverse ++ [a] with
+          | nil => simp at hq'
+          | cons y ys =>
+              rw [hq'] at h2
+              simp only [List.head?_cons, Option.some.injEq] at h2
+              rw [h2]; rfl
+        have hsplit : s.queue.reverse ++ a :: as =
+            (qstep s.queue a).2 :: ((envStep pw lg cfg s a).1.queue.reverse ++ as) := by
+          have : s.queue.reverse ++ a :: as = (s.queue.reverse ++ [a]) ++ as := by simp
+          rw [this, hne, hq, h1]; simp
+        have hrun : runDue pw lg cfg s (a :: as) =
+            (stepPre s a).2 :: runDue pw lg cfg (envStep pw lg cfg s a).1 as := by
+          simp [runDue, hd']
+        rw [hrun, hsplit, q2]
+        simp only [List.length_cons, List.take_succ_cons]
+        rw [← ih (envStep pw lg cfg s a).1]
+
+/-- … and after `reset` the queue holds `delay` null actions: the action executed at accepted step `k` is the
+    null action for `k < delay` and the decision submitted `delay` steps earlier otherwise -/
+theorem episode_fifo_reset (pw : α → α → α) (lg : α → α) (cfg : EnvCfg α) (lo hi : Time) (start : Nat)
+    (clk : Option Time) (acts : List (Action α)) :
+    runDue pw lg cfg (envReset cfg lo hi start clk) acts =
+      (List.replicate cfg.delay (nullAction cfg.space) ++ acts).take
+        (runDue pw lg cfg (envReset cfg lo hi start clk) acts).length := by
+  have := episode_fifo pw lg cfg acts (envReset cfg lo hi start clk)
+  rw [reset_queue, List.reverse_replicate] at this
+  exact this
+
 section
 variable {K : Type} [Field K] [LinearOrder K] [IsStrictOrderedRing K] [HasTrunc K]
 
